@@ -246,6 +246,10 @@ def run(rep, tier, seed):
                                                           "detail": m.detail})
         rep.note_case(repr([h["call"] for h in b["hist"]]))
     rep.traces += len(uniq)
+    kinds = {h["call"][0] for b in uniq for h in b["hist"]}
+    if not {"validate", "ruletest", "getdata", "filter", "edit"} <= kinds:
+        raise tlc.MachineryError(f"vacuity: generated call sequences lack a call kind: {kinds}")
+    rep.extra["actions_taken"] = sorted(kinds)
     rep.sample({"behaviour": [h["call"] for h in uniq[0]["hist"]]})
     nb = leg_b(rep, tier, seed)
     rep.rule = (f"leg C: {len(uniq)} distinct TLC-generated sequences of validate / Rule.test / get_data / part.filter calls on "
